@@ -66,6 +66,17 @@ def gen_last_drop(rng):
     return cases
 
 
+def gen_payloads():
+    """every payload shape (empty string, 100 kB, non-ASCII with newlines, bare number) through every capacity, on the
+    original handle and on a clone, sampled before and after delivery"""
+    cases = []
+    for cap in ["0", "1", "2", "u"]:
+        for shape in "elus":
+            cases.append("Q %s 1 E0%s,S,Rk,S,C0,E1%s,S,Rk,S,D0,D1" % (cap, shape, "" if shape == "e" else shape))
+            cases.append("Q %s 0 E0,E0%s,S,Rk,Re8,S,D0" % (cap, shape))
+    return cases
+
+
 def gen_patterns(rng):
     """C10/C11/C16: acceptance pattern while the gate stays closed; every outcome pattern of length <= 5 over
     {ok, err, panic}, with and without handler, also with the stop pending"""
@@ -77,8 +88,10 @@ def gen_patterns(rng):
     for n in range(1, 6):
         for pat in itertools.product(["Rk", "Re%d", "Rp"], repeat=n):
             pat = [p % (8 if i % 2 == 0 else i + 1) if "%" in p else p for i, p in enumerate(pat)]
-            for handler in ("0", "1"):
-                if handler == "0" and n > 3:
+            for handler in ("0", "1", "2", "3"):
+                if handler in "03" and n > 3:
+                    continue
+                if handler == "2" and n > 4:
                     continue
                 cases.append("Q u %s %s" % (handler, ",".join(["E0"] * n + pat + ["S", "E0", "Rk", "S"])))
                 if n <= 3:
@@ -90,8 +103,9 @@ def gen_random(rng, n, maxlen):
     cases = []
     for _ in range(n):
         cap = rng.choice(CAPS + ["3", "5"])
-        handler = rng.choice("01")
+        handler = rng.choice("0123")
         live, total, emits, rels = [0], 1, 0, 0
+        used_empty = False
         seq = []
         for _ in range(rng.randint(3, maxlen)):
             opts = []
@@ -103,7 +117,13 @@ def gen_random(rng, n, maxlen):
                 break
             o = rng.choice(opts)
             if o == "E":
-                seq.append("E%d" % rng.choice(live))
+                shape = ""
+                r = rng.random()
+                if r < 0.08 and not used_empty:
+                    shape, used_empty = "e", True       # at most one empty payload per history (identity is by text)
+                elif r < 0.2:
+                    shape = rng.choice("lus")
+                seq.append("E%d%s" % (rng.choice(live), shape))
                 emits += 1
             elif o == "C":
                 seq.append("C%d" % rng.choice(live))
@@ -232,7 +252,9 @@ def as_plain_drop(case):
     import re
     t = case.split(" ")
     if t[0] == "Q":
+        t[2] = {"2": "1", "3": "0"}.get(t[2], t[2])        # how the sink was constructed: with or without a handler
         t[3] = re.sub(r"U(\d+)", r"D\1", t[3])
+        t[3] = re.sub(r"E(\d+)[elus]", r"E\1", t[3])      # the payload's shape is nothing to the model or the clauses
     return " ".join(t)
 
 
@@ -362,6 +384,7 @@ def run_queue_check(prop, tier, seed):
     cases = list(ex)
     cases += gen_last_drop(rng)
     cases += gen_patterns(rng)
+    cases += gen_payloads()
     cases += gen_random(rng, 4000 if thorough else 400, 40)
     soak = gen_soak(rng, 60 if thorough else 12, thorough)
     sched = gen_schedules(7 if thorough else 6, [1, 2, None], rng, 3000 if thorough else 300, 30)
